@@ -10,7 +10,7 @@ from fractions import Fraction
 
 import z3
 
-from .core import Ctx, PathAbort, ReplayDiverged, SymBool, SymInt, SymReal, close, TWIN_STATE
+from .core import Ctx, EngineError, PathAbort, ReplayDiverged, SymBool, SymInt, SymReal, close, TWIN_STATE
 
 
 SEED = int(os.environ.get("VERIF_SEED", "0") or 0)
@@ -138,6 +138,7 @@ def _obs_equal(a, b):
 
 
 PROPERTY_ID = None
+PROMOTE_CONCRETE = True
 FRESH_REPLAYS = [0]
 
 
@@ -177,9 +178,28 @@ def run_conc(fn, cfg, values, exact=False):
         status = a.reason
     except ReplayDiverged as e:
         status = f"diverged: {e}"
+    except EngineError as e:
+        status = f"engine: {e}"
     finally:
         Ctx.current = prev
     return ctx, status
+
+
+def preimport_library():
+    """import every module of the library once, outside any path: module-level code (default arguments, class attributes, caches)
+    runs exactly once per process with the real interpreter semantics, as it does for a user"""
+    import importlib
+    import pkgutil
+
+    try:
+        import gcmpy
+    except Exception:  # noqa
+        return
+    for m in pkgutil.walk_packages(gcmpy.__path__, "gcmpy."):
+        try:
+            importlib.import_module(m.name)
+        except Exception:  # noqa
+            pass
 
 
 def run_path(fn, cfg, prefix, draw_budget, agg, cfg_name, validate):
@@ -283,11 +303,14 @@ def run_path(fn, cfg, prefix, draw_budget, agg, cfg_name, validate):
             m = None
         if m is not None:
             vals = ctx.model_values(m)
+            conc_failed = {}
+
             def attempt(exact):
                 cctx, cst = run_conc(fn, cfg, vals, exact=exact)
+                conc_failed[exact] = list(cctx.failed_labels) if cst in ("done", "failed") else []
                 sym_obs = [(n, _eval_obs(m, v)) for n, v in ctx.observations]
                 con_obs = [(n, _norm_obs(v)) for n, v in cctx.observations]
-                if cst != "done":
+                if cst != "done" and not (cst == "failed" and cctx.failed_labels):
                     return f"concrete run ended with {cst}"
                 if cctx.failed_labels and all(s in ("unsat", "concrete", "witness") for _, s, _ in ctx.obligations):
                     return f"concrete run failed {cctx.failed_labels[:3]} although all obligations were discharged"
@@ -311,6 +334,20 @@ def run_path(fn, cfg, prefix, draw_budget, agg, cfg_name, validate):
                         bad = None
                         k = "witness validated with exact rationals after a floating-point mismatch (model on a comparison boundary)"
                         agg.notes[k] = agg.notes.get(k, 0) + 1
+                    elif PROMOTE_CONCRETE and conc_failed.get(False) and conc_failed.get(True):
+                        # the real code, run on this path's model with plain Python values (floats AND exact rationals), fails an obligation
+                        # the symbolic run discharged: the library treats proxies differently from numbers (dtype / isinstance tests, C-level
+                        # conversions).  That is a reproduced counterexample, not a translator disagreement.
+                        both = [f for f in conc_failed[False] if any(g[0] == f[0] for g in conc_failed[True])]
+                        if both:
+                            f0 = both[0]
+                            if len(agg.violations) < 40:
+                                agg.violations.append({"label": f0[0], "sig": f0[1], "detail": f0[2], "config": cfg, "config_name": cfg_name, "values": vals,
+                                                       "reproduced": True, "replay_status": "found by the concrete re-run of this path's model on the real code "
+                                                       "(the symbolic run followed a proxy-only branch of the library)"})
+                            d = agg.obl.setdefault(f0[0], {})
+                            d["sat"] = d.get("sat", 0) + 1
+                            bad = None
                 if bad:
                     if len(agg.witness_bad) < 5:
                         agg.witness_bad.append({"config": cfg_name, "values": vals, "why": bad})
@@ -333,8 +370,10 @@ def _worker(harness_path, jobs, results, tier, deadline, nworkers, validate_ever
         import importlib
 
         mod = importlib.import_module(harness_path)
-        global PROPERTY_ID
+        preimport_library()
+        global PROPERTY_ID, PROMOTE_CONCRETE
         PROPERTY_ID = getattr(mod, "PROPERTY", None)
+        PROMOTE_CONCRETE = not getattr(mod, "SPURIOUS_IS_UNDECIDED", False)
         cfgs = mod.configs(tier)
         budget = getattr(mod, "DRAW_BUDGET", {}).get(tier)
         while True:
